@@ -381,8 +381,11 @@ def run_z3_case(ctx, rng, goal, origin):
         # that call left behind must not help the next one
         NAT = S.NAT
         gf = ('var', 'vfg', S.funs(NAT, NAT, NAT))
-        poison = conn('implies', goal, app(c('equals', S.funs(S.fun(NAT, NAT), S.fun(NAT, NAT), B)),
-                                           ('comb', gf, ('var', 'vfa', NAT)), ('comb', gf, ('var', 'vfb', NAT))))
+        # (a predicate applied to a partially applied function: an equation between the two partial applications
+        # would be refused by the wrapper itself before the library is reached)
+        setN = ('tc', 'set', (NAT,))
+        poison = conn('implies', goal, app(c('member', S.funs(NAT, setN, B)), ('var', 'vfb', NAT),
+                                           ('comb', ('var', 'vfs', S.fun(NAT, setN)), ('var', 'vfa', NAT))))
         try:
             theory.thy.check_proof(one_step('z3', S.to_repo_term(poison)), check_level=0)
             ctx.count('z3_failing_call_accepted')
